@@ -39,6 +39,7 @@ type validationContext struct {
 	function       *Function
 	functionName   string
 	loopDepth      int
+	switchDepth    int // nesting of switch statements since the innermost enclosing loop/continuing (break may target a switch)
 	inContinuing   bool
 	expressionUsed map[ExpressionHandle]bool
 }
@@ -541,7 +542,9 @@ func (v *Validator) validateStatement(index int, stmt *Statement) {
 				}
 				hasDefault = true
 			}
+			v.context.switchDepth++
 			v.validateBlock(c.Body)
+			v.context.switchDepth--
 		}
 		if !hasDefault {
 			v.addErrorInStatement(index, "switch missing default case")
@@ -550,6 +553,8 @@ func (v *Validator) validateStatement(index int, stmt *Statement) {
 	case StmtLoop:
 		oldDepth := v.context.loopDepth
 		v.context.loopDepth++
+		oldSwitchDepth := v.context.switchDepth
+		v.context.switchDepth = 0
 
 		v.validateBlock(kind.Body)
 
@@ -565,13 +570,16 @@ func (v *Validator) validateStatement(index int, stmt *Statement) {
 		}
 
 		v.context.loopDepth = oldDepth
+		v.context.switchDepth = oldSwitchDepth
 
 	case StmtBreak:
-		if v.context.loopDepth == 0 {
-			v.addErrorInStatement(index, "break outside of loop")
-		}
-		if v.context.inContinuing {
-			v.addErrorInStatement(index, "break in continuing block")
+		if v.context.switchDepth == 0 {
+			if v.context.loopDepth == 0 {
+				v.addErrorInStatement(index, "break outside of loop")
+			}
+			if v.context.inContinuing {
+				v.addErrorInStatement(index, "break in continuing block")
+			}
 		}
 
 	case StmtContinue:
